@@ -18,30 +18,30 @@ import (
 )
 
 type Engine struct {
-	repo      string
-	fset      *token.FileSet
-	prog      *ssa.Program
-	pkgs      []*packages.Package
-	spkgs     []*ssa.Package
-	target    map[*types.Package]bool
-	pkgByNm   map[string]*types.Package
-	sorts     *Sorts
-	strLits   map[string]string
-	strOrder  []string
-	spec      *SpecFile
-	fnByName  map[string]*ssa.Function
-	keySort   map[string]string
-	keyKinds  map[string]keyKind
-	guards    map[string]string // structSort.field -> mutex field
+	repo            string
+	fset            *token.FileSet
+	prog            *ssa.Program
+	pkgs            []*packages.Package
+	spkgs           []*ssa.Package
+	target          map[*types.Package]bool
+	pkgByNm         map[string]*types.Package
+	sorts           *Sorts
+	strLits         map[string]string
+	strOrder        []string
+	spec            *SpecFile
+	fnByName        map[string]*ssa.Function
+	keySort         map[string]string
+	keyKinds        map[string]keyKind
+	guards          map[string]string // structSort.field -> mutex field
 	guardWritesOnly map[string]bool
-	mapKeySort map[string]string
-	mapZero    map[string]string
-	typeTags  map[string]int
-	tagType   map[int]types.Type
-	specFns   map[string]*SpecFn
-	lemmas    map[string]*Lemma
-	specFiles []string
-	notes     []string
+	mapKeySort      map[string]string
+	mapZero         map[string]string
+	typeTags        map[string]int
+	tagType         map[int]types.Type
+	specFns         map[string]*SpecFn
+	lemmas          map[string]*Lemma
+	specFiles       []string
+	notes           []string
 }
 
 func (e *Engine) isTargetPkg(p *types.Package) bool { return e.target[p] }
